@@ -119,6 +119,13 @@ fn main() {
       };
       let m = c05t::minimise_world("c05", &v, 120);
       println!("{}", serde_json::to_string_pretty(&m.to_json()).unwrap());
+      let known = report::load_known().unwrap_or_default();
+      for k in known.iter().filter(|k| k.matches("C05", &m, &|p, v| c05t::predicate(p, v))) {
+        println!("matches known finding {}", k.id);
+      }
+      for p in ["unguarded_rule_cycle", "generic_reentrancy", "abnf_huge_repetition"] {
+        println!("predicate {} = {}", p, c05t::predicate(p, &m));
+      }
     }
     "selftest" => {
       let what = args.get(2).map(|s| s.as_str()).unwrap_or("model");
